@@ -3,11 +3,11 @@ CONSTANTS
   Shapes0 <- MCShapes
   Acts = {"refine", "refine_helper"}
   MaxDepth = 2
-  CurveP = {1,2,3,4}
+  CurveP = {1,2,3}
   CurveInt = 2
   SurfMode = 2
-  VolMode = 2
-  MaxDens = 3
+  VolMode = 1
+  MaxDens = 2
   DepthCurve = 2
   Seed = 2
 INVARIANT T_WellFormed
